@@ -38,12 +38,14 @@ theorem getTestID_some {b t : Text} (h : getTestID b = some t) :
           split at h
           · cases h
           · simp only [Option.some.injEq] at h
-            have hp : Generated.headerPrefix = [91, 84, 101, 115, 116] := rfl
+            -- only the first byte of the prefix matters here (`[`), whatever follows it
+            obtain ⟨r, hp⟩ : ∃ r, Generated.headerPrefix = 91 :: r := ⟨_, rfl⟩
             obtain ⟨ys, hys⟩ := List.getLast?_eq_some_iff.mp hlast
             refine ⟨?_, ?_⟩
             · subst hys
               cases ys with
-              | nil => simp [hasPrefix, hp] at hpre
+              | nil =>
+                cases r <;> simp [hasPrefix, hp] at hpre
               | cons y ys' =>
                 simp only [hasPrefix, hp, List.cons_append, List.isPrefixOf_cons_cons,
                   Bool.and_eq_true, beq_iff_eq] at hpre
